@@ -118,6 +118,10 @@ var StrPool = []string{"", "a", "b", "ab", "abc", "abd", "hello", "hello world",
 
 var StrDenorm = []string{"é", "Å", "naïve"}
 
+// NonNFC: strings that normalisation changes, of every kind: a combining mark after its base, a code point with a
+// singleton decomposition (no mark involved), conjoining Hangul jamo, marks in non-canonical order, a compatibility ideograph
+var NonNFC = []string{"e\u0301", "A\u030a", "\u212b", "\u2126", "\u1112\u1161\u11ab", "\u1f71", "\uf900", "a\u0307\u0323", "x\u212bz", "\u1100\u1161"}
+
 func GenStr(r *rng.R) string { return StrPool[r.Intn(len(StrPool))] }
 
 // ---------- values ----------
